@@ -11,11 +11,30 @@
     and key column names are non-empty.  [H] is the hash of a cell list (MeowHash of
     its StrList encoding), a parameter.
 
-    Producers covered here: ingest.IngestTable (commit) and IngestTableFromSorter on ANY
-    rows handed to a sorter (merge result, doctor re-ingest share that path).  Receipt
-    over the wire (ObjectReceiver) is exercised by the C07 harness, not modelled here;
-    agreement of IndexBlock (decoded rows) with IndexBlockFromBytes (bytes) is checked
-    by the harness through ingest.IndexTable (byte level is C06's). *)
+    Producers named by the property and how each is covered:
+      - commit (ingest.IngestTable, wrgl commit): THEOREM C03_ingest_wf + correspondence
+        (harness kinds 0, 1).
+      - any rows handed to a sorter, then IngestTableFromSorter / IngestTableFromBlocks
+        (the path shared by the merge commit and the doctor re-ingest): THEOREM
+        C03_sorter_any_rows_wf, for every family of sorted runs + correspondence (kind 2).
+      - merge commit: the real merge (merge.NewMerger / Start, automatic resolution only,
+        same columns, key first - outside that guard the merge has the known C05 findings)
+        committed as cmd/wrgl commitMergeResult does: CORRESPONDENCE (kind 4).  The model
+        ingests the three-way merge of the tables computed by the harness, i.e. the theorem
+        applies to the row multiset the collector hands to its sorter; that the collector
+        hands over exactly the merged rows is C05's obligation and is checked here by the
+        oracle only.
+      - doctor re-ingest: a table written object by object with duplicated rows / keys,
+        repaired by doctor.Diagnose + Resolve: CORRESPONDENCE (kind 5); the model ingests
+        the stored rows in their stored order (resolver.ingestTable feeds them to a sorter,
+        so the theorem applies to that step).
+      - receipt over the wire (ObjectSender -> packfile -> ObjectReceiver, indices rebuilt
+        by ingest.IndexTable): CORRESPONDENCE ONLY (kind 6): the received table is judged
+        by the same oracle, compared with the model's table for the sent CSV and with the
+        sender's objects; ObjectReceiver itself is not modelled here (C07/C17).
+    Agreement of IndexBlock (decoded rows) with IndexBlockFromBytes (bytes) is checked by
+    the harness through ingest.IndexTable and by re-indexing every block (byte level is
+    C06's). *)
 From W.lib Require Import Tree Bytes.
 From W.model Require Import Sorter SorterSpec Ingest IngestSpec.
 From W.proofs Require Import Sorter_proofs Ingest_proofs.
